@@ -266,7 +266,7 @@ def classify(b):
     return None
 
 
-def report(ctx, seed, hargs, hists, bad, limit=3):
+def report(ctx, seed, hargs, hists, bad, limit=2):
     """turn mismatches into violations with a concrete failing input"""
     for pos, codes in bad[:limit]:
         h = hists[pos]
@@ -348,7 +348,7 @@ def replay(ctx, flags, hargs, cfg):
 import store_oracle as so
 
 
-def oracle_failures(seed, hargs, hists, c01, c02, c09, limit=3, ctx=None):
+def oracle_failures(seed, hargs, hists, c01, c02, c09, limit=2, ctx=None):
     """disagreements between the implementation's observations and the Python reading of the SPEC"""
     out = []
     for h in hists:
@@ -409,13 +409,17 @@ def run_case(ctx, case, c02, c09):
     return hstore(args)[0]
 
 
-def shrink(ctx, h, step, cfg, c09_entry=None, budget=120):
+def shrink(ctx, h, step, cfg, c09_entry=None, budget=120, seconds=40):
     """smallest operation list (prefix of h up to `step`, operations and batch elements removed) on which the
     implementation still disagrees with the Python reading of the SPEC; None if the oracle does not see the failure"""
     c01, c02, c09 = cfg
     ops = [s["op"] for s in h["steps"][:step + 1]]
+    import time as _time
+    deadline = _time.time() + seconds        # shrinking is a convenience: never let it dominate a failing run
 
     def fails(ops):
+        if _time.time() > deadline:
+            return False
         case = {"universe": h["universe"], "pools": h["pools"], "names": h["names"], "ops": ops, "c09": {}}
         if c09 and c09_entry is not None:
             case["c09"] = {str(len(ops) - 1): {"qs": c09_entry["qs"], "los": c09_entry["los"], "d": 0}}
